@@ -1,6 +1,7 @@
 package props
 
 import (
+	"regexp"
 	"strings"
 	"testing"
 
@@ -163,8 +164,35 @@ func c05Gen(t *rapid.T) C05Case {
 	}
 	q := datagen.GenGrammarQuery(t, envInt("VERIF_C05_YEAR", 1) == 1)
 	layout := datagen.RapidLayout{T: t, Heavy: true, Comments: rapid.IntRange(0, 2).Draw(t, "comments") == 0, RawOK: true}
-	return C05Case{Query: &q, Text: gen.Print(q, layout), Plain: gen.Print(q, gen.Plain{})}
+	c := C05Case{Query: &q, Text: gen.Print(q, layout), Plain: gen.Print(q, gen.Plain{})}
+	// A long query: a leading comment pushes the text beyond one or two KiB (scanners read in
+	// 1024-byte chunks), mostly so that some word - by / without first of all - ends exactly on a
+	// chunk boundary.
+	if rapid.IntRange(0, 5).Draw(t, "long-query") == 0 {
+		ends := c05WordEnds.FindAllStringIndex(c.Plain, -1)
+		if kw := c05GroupingWord.FindAllStringIndex(c.Plain, -1); len(kw) > 0 && rapid.IntRange(0, 3).Draw(t, "align-any-word") != 0 {
+			ends = kw
+		}
+		pad := rapid.IntRange(1000, 2200).Draw(t, "pad")
+		if len(ends) > 0 && rapid.IntRange(0, 4).Draw(t, "unaligned") != 0 {
+			end := ends[rapid.IntRange(0, len(ends)-1).Draw(t, "aligned-word")][1]
+			m := rapid.IntRange(1, 2).Draw(t, "chunks")
+			if rapid.Bool().Draw(t, "word-starts-on-boundary") {
+				end = ends[0][0]
+			}
+			if p := 1024*m - end - 2; p >= 0 {
+				pad = p
+			}
+		}
+		c.Plain = "#" + strings.Repeat("-", pad) + "\n" + c.Plain
+	}
+	return c
 }
+
+var (
+	c05WordEnds     = regexp.MustCompile(`[A-Za-z_]+`)
+	c05GroupingWord = regexp.MustCompile(`\b(?:by|without)\b`)
+)
 
 // TestC05 decides C05.
 func TestC05(t *testing.T) {
